@@ -582,6 +582,23 @@ func runC02(c *caseWriter) (string, bool, map[string]int) {
 			}
 		}
 	}
+	// break / continue taken while a script / style / attribute value is still open (the unchanged engine
+	// panics on them: finding D7 of C08); special element bodies with non-ASCII bytes before the end tag
+	for _, t := range []string{
+		`{{range .}}<script>{{if .}}{{break}}{{end}}</script>{{end}}<b>{{index . 0}}</b></script>`,
+		`{{range .}}<style>{{if .}}{{break}}{{end}}</style>{{end}}{{index . 0}}</style>`,
+		`{{range .}}<a href="{{if .}}{{break}}{{end}}/x">k</a>{{end}}{{index . 0}}">z</a>`,
+		`{{range .}}<div onclick="{{if .}}{{continue}}{{end}}f()">k</div>{{end}}{{index . 1}}">z</div>`,
+		`{{range .}}<script src="{{if .}}{{break}}{{end}}/x.js"></script>{{end}}{{index . 0}}"></script>`,
+		"<textarea>caf\xe9</textarea><script>{{index . 0}}</script><textarea>y</textarea>",
+		"<title>\u212a\u212a\u212a</title><script>{{index . 0}}</script><title>t</title>",
+		"<script>var s = \"\u023a\u023a\u023a\";</script><p>{{index . 0}}</p><script>var t;</script>",
+		"<style>/* \u0130\u0130 */</style><i>{{index . 1}}</i><style>a{}</style>",
+		"<script>/*\xe9\xe9\xe9\xe9\xe9\xe9\xe9\xe9\xe9*/</script><b>{{index . 0}}</b><script>x</script>",
+	} {
+		cc(t, c02List(mkA, mkB))
+		cc(t, c02List("//"+mkA+"/x.js", "javascript:"+mkB))
+	}
 	condPrefixes := []string{`{{if .C}}{{else}}java{{end}}`, `{{if .C}}java{{end}}`, `{{if .C}}{{else}}javascript:{{end}}`, `{{if .C}}javascript:{{end}}`, `{{if .C}}/p/{{else}}https://h.example/{{end}}`, `{{if .C}}{{else}}//{{end}}`,
 		`{{if .C}}{{else}}https://{{end}}`, `{{if .C}}https://{{end}}`, `{{with .C}}{{else}}java{{end}}`, `{{range .C}}{{else}}java{{end}}`, `{{if .C}}{{else}}{{if .D}}{{else}}java{{end}}{{end}}`, `{{if .C}}{{else}}j{{end}}{{if .D}}{{else}}ava{{end}}`,
 		`{{if .C}}{{else}}JaVa{{end}}`, `{{if .C}}{{else}}java&#115;{{end}}`, `{{if .C}}{{else}} java{{end}}`, `{{if .C}}{{else}}data:text/html,{{end}}`, `{{if .C}}{{else}}/p?q={{end}}`, `{{if .C}}{{else}}/p/{{end}}`, `{{if .C}}{{else}}x{{end}}`}
